@@ -32,7 +32,10 @@ QHEX = Cat(Re("'"), HEXS, Re("'"))
 ATOMS = {
     "ids-exact": Cat(Re("events.id IN ("), lst(XHEX), Re(")")),
     "ids-prefix": Un(Cat(Re("lower(hex(id)) LIKE '"), HEXS, Re("%'")), Cat(Re("encode(id, 'hex') LIKE '"), HEXS, Re("%'"))),
-    "authors": Cat(Re("(pubkey IN ("), lst(XHEX), Re(") OR id IN (SELECT id FROM tags WHERE name = 'delegation' AND value IN ("), lst(QHEX), Re(")))")),
+    "authors": Cat(Re("(pubkey IN ("), lst(XHEX), Re(") OR id IN (SELECT id FROM tags WHERE name = 'delegation' AND value IN ("),
+                   # hexexact is filled in step with exact, so it is non-empty here; that relation between the two sets is not stated as a
+                   # loop invariant (sets carry no size in the encoding), hence the optional list: still a fixed shape with hex-only literals
+                   Opt_(lst(QHEX)), Re(")))")),
     "kinds": Cat(Re("kind IN ("), lst(INT), Re(")")),
     "since": Cat(Re("created_at >= "), INT),
     "until": Cat(Re("created_at < "), INT),
@@ -113,6 +116,79 @@ evaluate_filter.loops = {
 NAMED_RE.update({"xhex": XHEX, "qlit": QLIT, "qhex": QHEX})
 evaluate_filter.local_types = {"exact": {"emptylist": V.List(V.Str), "emptyset": V.Set(V.Str)}, "hexexact": V.Set(V.Str), "pstr": V.List(V.Str)}
 evaluate_filter.elem_classes = {"exact": ("xhex", XHEX), "hexexact": ("qhex", QHEX), "pstr": ("qlit", QLIT)}
-evaluate_filter.stmt_hints = [
-    ("subwhere.append(", {"_appended": "@arg0"}, [], [("appended-fragment-is-an-atom", "matches(_appended, 'sql_atom')")]),
+evaluate_filter.refined = {"subwhere": ("sql_atom", ATOM)}   # obligation at each subwhere.append; no other use of subwhere allowed
+
+# the induction "every append adds an atom, nothing else touches subwhere  =>  every element is an atom" is NOT mechanised:
+# it is assumed at evaluate_filter's call site (normal return only; nothing is assumed about subwhere when ValueError escapes)
+assume_doc("INDUCT-ATOMS", "INDUCTION BY DISCIPLINE, not by the SMT solver: 'after evaluate_filter returns normally into an initially empty subwhere, every element of "
+           "subwhere is an SQL atom' (assumed at the call site in build_query) and 'every element of where is a conjunction of atoms or false' (assumed where the "
+           "statement is joined) follow from (a) an obligation at every .append/.add site that the added string lies in the class, discharged by the solver, and "
+           "(b) a syntactic check, re-run on the real source every time, that the collection is used in no other way (pyvc.verify.check_refined_discipline)")
+evaluate_filter.contract.trusted_ensures = [
+    ("all-appended-fragments-are-atoms", "implies(len(old(subwhere)) == 0, all_range(0, len(subwhere), lambda i: matches(subwhere[i], 'sql_atom')))"),
 ]
+
+
+# ---------------------------------------------------------------------------------------------------- Subscription.build_query
+@REG.model("NostrQuery")
+def _nostrquery_ctor(sx, args, kwargs, st, node):
+    # NostrQuery(): every field None except limit, whose default is Config.max_limit read at class-definition time
+    if args or kwargs:
+        raise Unsupported("NostrQuery(...) with arguments", node)
+    q = sx.fresh(QUERY, "empty_query", st)
+    for f in ("ids", "authors", "kinds", "since", "until", "tags"):
+        ft = QUERY.fields[f]
+        st.assume(ft.is_none(QUERY.get(q.term, f)))
+    lim = QUERY.get(q.term, "limit")
+    lt = QUERY.fields["limit"]
+    st.assume(z3.Implies(z3.Not(lt.is_none(lim)), lt.get(lim) >= 0))
+    return [R(st, q)]
+
+
+QLIMITS = "all_range(0, len(filters), lambda i: implies(filters[i].limit is not None, filters[i].limit >= 0))"
+build_query = REG.unit(Unit(
+    P, "Subscription.build_query",
+    Contract("Subscription.build_query", {"self": V.ObjT("SQLSubscription"), "filters": V.List(QUERY)},
+             # established by NostrQuery.model_validate (ids_are_hex; Field(ge=0) on limit) and by BaseSubscription.__init__
+             requires=[("ids-and-authors-are-hex", "all_range(0, len(filters), lambda j: (%s))" % QCLASS.replace("filter_obj", "filters[j]").replace("lambda i", "lambda i2").replace("[i]", "[i2]")),
+                       ("limits-are-non-negative", QLIMITS),
+                       ("default-limit-is-non-negative", "self.default_limit >= 0")],
+             ensures=[("returns", "True")], raises={}),
+    loops={1: LoopSpec("filters", index="_f", invariants=[
+        ("limit-capped", "implies(limit is not None, 0 <= limit and limit <= self.default_limit)"),
+    ])},
+    props=["C01", "C12"],
+    canaries=[("never-returns", "False")],
+))
+build_query.local_types = {"where": V.Set(V.Str), "subwhere": {"emptylist": V.List(V.Str)}, "new_filters": V.List(QUERY), "limit": V.Opt(V.Int)}
+build_query.elem_classes = {"where": ("sql_conj", CONJ), "subwhere": ("sql_atom", ATOM)}
+build_query.stmt_hints = [
+    # C01: whatever the filters contain, the text handed to the engine is a statement of the fixed grammar
+    ("select += f", {}, [], [("statement-is-in-the-fixed-grammar", "matches(select, 'sql_statement')"),
+                              # C12: the LIMIT literal never exceeds the configured cap
+                              ("limit-literal-is-capped", "limit is not None and 0 <= limit and limit <= self.default_limit")]),
+]
+build_query.refined = {"where": ("sql_conj", CONJ)}   # every disjunct is a conjunction of atoms or 'false' (obligation at each where.add)
+build_query.obligation_props = [("limit", ["C12"]), ("", ["C01"])]
+REG.contracts["SQLSubscription.evaluate_filter"] = evaluate_filter.contract
+
+
+# ---------------------------------------------------------------------------------------------------- base.ids_are_hex
+# the sanitiser behind the 'ids-and-authors-are-hex' precondition of evaluate_filter / build_query: pydantic runs it as the
+# AfterValidator of NostrQuery.ids and NostrQuery.authors (that wiring is read from the class body, not proved)
+ids_are_hex = REG.unit(Unit(
+    PB, "ids_are_hex",
+    Contract("ids_are_hex", {"hexids": V.List(V.Str)},
+             ensures=[("every-returned-id-is-lowercase-hex", "all_range(0, len(result), lambda i: matches(result[i], 'hexs'))"),
+                      ("every-returned-id-has-at-least-64-digits", "all_range(0, len(result), lambda i: len(result[i]) >= 64)"),
+                      ("nothing-dropped-or-added", "len(result) == len(hexids)")],
+             raises={"ValueError": True}, returns=V.List(V.Str)),
+    loops={1: LoopSpec("ids", index="_i", invariants=[
+        ("so-far-hex", "all_range(0, len(new_ids), lambda i: matches(new_ids[i], 'hexs'))"),
+        ("so-far-long", "all_range(0, len(new_ids), lambda i: len(new_ids[i]) >= 64)"),
+        ("one-per-input", "len(new_ids) == _i"),
+    ])},
+    props=["C01"],
+    canaries=[("never-returns", "False")],
+))
+ids_are_hex.local_types = {"new_ids": V.List(V.Str)}
